@@ -156,43 +156,7 @@ func rulesC01Round2(c *Ctx, g *CG, cone []*ssa.Function, parent map[*ssa.Functio
 	// replaying nodes get CometBFT's ProposedLastCommit/LastCommitInfo, which lists every validator (absent ones included),
 	// and the staking application counts them. The conversion must therefore forward every entry: in the conversion
 	// loop the append of a VoteInfo is reached on every path through the loop body.
-	if fn := c.needFn("C01.proposal", "consensus/cometbft/abci.(*abciMux).PrepareProposal"); fn != nil {
-		var appends, heads []ssa.Instruction
-		for _, b := range fn.Blocks {
-			for _, in := range b.Instrs {
-				if call, ok := in.(ssa.CallInstruction); ok && calleeName(call) == "builtin.append" {
-					args := allArgs(call)
-					if len(args) == 2 && strings.HasSuffix(typeStr(args[0].Type()), "abci/types.VoteInfo") {
-						appends = append(appends, in)
-					}
-				}
-				// loop header: the bounds test of the range over LocalLastCommit.Votes
-				if bo, ok := in.(*ssa.BinOp); ok && strings.Contains(vstr(bo), ".LocalLastCommit.Votes)") {
-					if refs := bo.Referrers(); refs != nil {
-						for _, r := range *refs {
-							if ifi, ok := r.(*ssa.If); ok {
-								heads = append(heads, ifi)
-							}
-						}
-					}
-				}
-			}
-		}
-		inst := fname(fn) + ":every local last-commit vote is forwarded"
-		if len(appends) == 0 || len(heads) == 0 {
-			c.Fail("C01.proposal", inst, c.P.Pos(fn.Pos()), "the conversion loop from the local extended commit to the commit info (range over req.LocalLastCommit.Votes appending VoteInfo) was not found in PrepareProposal")
-		} else {
-			ok := true
-			for _, h := range heads {
-				ifi := h.(*ssa.If)
-				// from the loop body entry (true edge of the bounds test) back to the header without passing the append
-				if hit := Reach(fn, nil, []Edge{{ifi.Block(), 0}}, isInstr(h), NewCut().AddInstr(appends...)); hit != nil {
-					ok = false
-				}
-			}
-			c.Check(ok, "C01.proposal", inst, c.P.InstrPos(appends[0]), "every iteration of the conversion loop appends one VoteInfo", "an iteration of the last-commit conversion loop can skip the append: the proposer executes its own block on a shorter vote list than the validators and replaying nodes see (the staking application counts the entries), so their results differ from the proposer's")
-		}
-	}
+	prepareVotesRule(c, "C01.proposal")
 
 	// ---- resetting a proposal re-creates the canonical tree on every path
 	// The working tree of a proposal is an overlay that is flushed into the canonical tree when its root is computed; a
@@ -221,4 +185,48 @@ func resetProposalRule(c *Ctx, rule string) {
 			c.Check(hit == nil && fresh, rule, inst, c.P.InstrPos(stores.Ins[0]), "every path assigns a freshly constructed tree to the canonical state", "a path through resetProposal keeps the previous canonical tree (or assigns a tree that is not freshly constructed): the writes of an undecided proposal, flushed into it when its state root was computed, stay and the next proposal for the height executes on top of them")
 		}
 	}
+}
+
+// prepareVotesRule: the proposer executes on the same last-commit input as everyone else (shared by C01 and C10: a
+// proposer that executes on a shorter vote list signs a state root nobody else computes, and every validator rejects
+// its block).
+func prepareVotesRule(c *Ctx, rule string) {
+	if fn := c.needFn(rule, "consensus/cometbft/abci.(*abciMux).PrepareProposal"); fn != nil {
+		var appends, heads []ssa.Instruction
+		for _, b := range fn.Blocks {
+			for _, in := range b.Instrs {
+				if call, ok := in.(ssa.CallInstruction); ok && calleeName(call) == "builtin.append" {
+					args := allArgs(call)
+					if len(args) == 2 && strings.HasSuffix(typeStr(args[0].Type()), "abci/types.VoteInfo") {
+						appends = append(appends, in)
+					}
+				}
+				// loop header: the bounds test of the range over LocalLastCommit.Votes
+				if bo, ok := in.(*ssa.BinOp); ok && strings.Contains(vstr(bo), ".LocalLastCommit.Votes)") {
+					if refs := bo.Referrers(); refs != nil {
+						for _, r := range *refs {
+							if ifi, ok := r.(*ssa.If); ok {
+								heads = append(heads, ifi)
+							}
+						}
+					}
+				}
+			}
+		}
+		inst := fname(fn) + ":every local last-commit vote is forwarded"
+		if len(appends) == 0 || len(heads) == 0 {
+			c.Fail(rule, inst, c.P.Pos(fn.Pos()), "the conversion loop from the local extended commit to the commit info (range over req.LocalLastCommit.Votes appending VoteInfo) was not found in PrepareProposal")
+		} else {
+			ok := true
+			for _, h := range heads {
+				ifi := h.(*ssa.If)
+				// from the loop body entry (true edge of the bounds test) back to the header without passing the append
+				if hit := Reach(fn, nil, []Edge{{ifi.Block(), 0}}, isInstr(h), NewCut().AddInstr(appends...)); hit != nil {
+					ok = false
+				}
+			}
+			c.Check(ok, rule, inst, c.P.InstrPos(appends[0]), "every iteration of the conversion loop appends one VoteInfo", "an iteration of the last-commit conversion loop can skip the append: the proposer executes its own block on a shorter vote list than the validators and replaying nodes see (the staking application counts the entries), so their results differ from the proposer's")
+		}
+	}
+
 }
